@@ -421,7 +421,7 @@ class Port:
         self.is_shutdown = True
         if self.simbus.shutdown_stops_tasks:
             for t in self.simbus.tasks:
-                if getattr(t, "port", None) is self:
+                if getattr(t, "port", None) is self and not t.stopped:
                     t.stop()
 
 
